@@ -505,6 +505,297 @@ theorem get_first_profile (name : String) (ops : List Op) (rest : List Cfg) (key
   · intro hn
     simp [ownLookup, getItem, hs', sectionEntry, hl.trans hn, Except.map]
 
+/-! ### The configuration an answer is bound to: variables along the fallback chain -/
+
+/-- `getItemAt` is `getItem` plus the position of the answering configuration -/
+theorem getItemAt_getItem (chain : List Cfg) (name : String) :
+    (getItemAt chain name).map (·.2) = getItem chain name := by
+  induction chain with
+  | nil => rfl
+  | cons c rest ih =>
+    simp only [getItemAt, getItem]
+    cases dget? c.sections name with
+    | some s => rfl
+    | none =>
+      simp only
+      cases c.masterSection with
+      | ok r => obtain ⟨mn, m⟩ := r; simp only; cases dget? m name <;> rfl
+      | error e =>
+        simp only
+        rw [← ih]
+        cases getItemAt rest name <;> rfl
+
+/-- the configuration's own answer with the position of the configuration it belongs to -/
+def ownLookupAt (c : Cfg) (rest : List Cfg) (key : String) (sect : Option String) : Except Err (Nat × String × Entry) :=
+  match sect with
+  | none => match c.masterSection with
+    | .error e => .error e
+    | .ok (_, m) => (sectionEntry m key).map (fun e => (0, key, e))
+  | some s => match getItemAt (c :: rest) s with
+    | .error e => .error e
+    | .ok (d, .entry k e) => .ok (d, k, e)
+    | .ok (d, .sect _ sec) => (sectionEntry sec key).map (fun e => (d, key, e))
+
+theorem ownLookupAt_ownLookup (c : Cfg) (rest : List Cfg) (key : String) (sect : Option String) :
+    (ownLookupAt c rest key sect).map (·.2) = ownLookup c rest key sect := by
+  cases sect with
+  | none =>
+    simp only [ownLookupAt, ownLookup]
+    cases c.masterSection with
+    | error e => rfl
+    | ok r => obtain ⟨mn, m⟩ := r; simp only; cases sectionEntry m key <;> rfl
+  | some s =>
+    simp only [ownLookupAt, ownLookup]
+    rw [← getItemAt_getItem]
+    cases getItemAt (c :: rest) s with
+    | error e => rfl
+    | ok r =>
+      obtain ⟨d, it⟩ := r
+      cases it with
+      | entry k e => rfl
+      | sect n sec => simp only [Except.map]; cases sectionEntry sec key <;> rfl
+
+/-- **getAt_order**: the lookup order of `get`, with the configuration each kind of answer is bound to: the
+configuration's own answer keeps its position, an answer of the fallback chain moves one position down, the
+default belongs to the configuration that was asked (position 0) -/
+theorem getAt_order (c : Cfg) (rest : List Cfg) (key : String) (sect dflt : Option String) :
+    getAt (c :: rest) key none sect dflt =
+      match ownLookupAt c rest key sect with
+      | .ok r => .ok r
+      | .error err =>
+        match getAt rest key none sect none with
+        | .ok r => .ok (r.1 + 1, r.2)
+        | .error _ =>
+          match dflt with
+          | none => .error err
+          | some d => .ok (0, key, ⟨d, "default value", []⟩) := by
+  cases sect <;> simp only [getAt, ownLookupAt] <;> rfl
+
+/-- **`getAt` refines `get`**: forgetting the position gives exactly `Configuration.get` of the model, so each
+result on `get` (order, override, default, errors, first listed profile) holds for the entry `getAt` returns -/
+theorem getAt_get (chain : List Cfg) (key : String) (value sect dflt : Option String) :
+    (getAt chain key value sect dflt).map (·.2) = Midgard.Config.get chain key value sect dflt := by
+  induction chain generalizing value dflt with
+  | nil => rfl
+  | cons c rest ih =>
+    cases value with
+    | some v => simp [getAt, Midgard.Config.get, Except.map]
+    | none =>
+      rw [getAt_order, get_order, ← ownLookupAt_ownLookup, ← ih none none]
+      cases ownLookupAt c rest key sect with
+      | ok r => rfl
+      | error err =>
+        simp only [Except.map]
+        cases getAt rest key none sect none with
+        | ok r => rfl
+        | error e => cases dflt <;> rfl
+
+theorem getItemAt_lt (chain : List Cfg) (name : String) (d : Nat) (it : Item)
+    (h : getItemAt chain name = .ok (d, it)) : d < chain.length := by
+  induction chain generalizing d it with
+  | nil => simp [getItemAt] at h
+  | cons c rest ih =>
+    simp only [getItemAt] at h
+    cases hs : dget? c.sections name with
+    | some s => rw [hs] at h; simp at h; simp [← h.1]
+    | none =>
+      rw [hs] at h
+      simp only at h
+      cases hm : c.masterSection with
+      | ok r =>
+        obtain ⟨mn, m⟩ := r
+        rw [hm] at h
+        simp only at h
+        cases hk : dget? m name with
+        | some e => rw [hk] at h; simp at h; simp [← h.1]
+        | none => rw [hk] at h; simp at h
+      | error e =>
+        rw [hm] at h
+        simp only at h
+        cases hr : getItemAt rest name with
+        | error e' => rw [hr] at h; simp at h
+        | ok r =>
+          obtain ⟨d', it'⟩ := r
+          rw [hr] at h
+          simp at h
+          have := ih d' it' hr
+          simp only [List.length_cons]; omega
+
+theorem sectionEntry_map_ok {α} (s : Section) (key : String) (f : Entry → α) (r : α)
+    (h : (sectionEntry s key).map f = .ok r) : ∃ e, r = f e := by
+  cases hs : sectionEntry s key with
+  | error e => rw [hs] at h; simp [Except.map] at h
+  | ok e => rw [hs] at h; simp [Except.map] at h; exact ⟨e, h.symm⟩
+
+theorem ownLookupAt_lt (c : Cfg) (rest : List Cfg) (key : String) (sect : Option String) (r : Nat × String × Entry)
+    (h : ownLookupAt c rest key sect = .ok r) : r.1 < (c :: rest).length := by
+  cases sect with
+  | none =>
+    simp only [ownLookupAt] at h
+    cases hm : c.masterSection with
+    | error e => rw [hm] at h; simp at h
+    | ok mr =>
+      obtain ⟨mn, m⟩ := mr
+      rw [hm] at h
+      obtain ⟨e, he⟩ := sectionEntry_map_ok m key _ r h
+      simp [he]
+  | some s =>
+    simp only [ownLookupAt] at h
+    cases hi : getItemAt (c :: rest) s with
+    | error e => rw [hi] at h; simp at h
+    | ok ir =>
+      obtain ⟨d, it⟩ := ir
+      rw [hi] at h
+      have hd := getItemAt_lt (c :: rest) s d it hi
+      cases it with
+      | entry k e => simp at h; simpa [← h] using hd
+      | sect n sec =>
+        obtain ⟨e, he⟩ := sectionEntry_map_ok sec key _ r h
+        simpa [he] using hd
+
+/-- the answer is bound to a configuration of the chain -/
+theorem getAt_lt (chain : List Cfg) (key : String) (value sect dflt : Option String) (r : Nat × String × Entry)
+    (h : getAt chain key value sect dflt = .ok r) : r.1 < chain.length := by
+  induction chain generalizing value dflt r with
+  | nil => simp [getAt] at h
+  | cons c rest ih =>
+    cases value with
+    | some v => simp [getAt] at h; simp [← h]
+    | none =>
+      rw [getAt_order] at h
+      cases ho : ownLookupAt c rest key sect with
+      | ok r' => rw [ho] at h; simp at h; subst h; exact ownLookupAt_lt c rest key sect r' ho
+      | error err =>
+        rw [ho] at h
+        simp only at h
+        cases hf : getAt rest key none sect none with
+        | ok r' =>
+          rw [hf] at h; simp at h; subst h
+          have := ih none none r' hf
+          simp only [List.length_cons]; omega
+        | error e =>
+          rw [hf] at h
+          cases dflt with
+          | none => simp at h
+          | some d => simp at h; simp [← h]
+
+/-- an explicit override belongs to the configuration that was asked -/
+theorem getAt_override (c : Cfg) (rest : List Cfg) (key v : String) (sect dflt : Option String) :
+    getAt (c :: rest) key (some v) sect dflt = .ok (0, key, ⟨v, "method call", []⟩) := by
+  simp [getAt]
+
+/-- an entry of the configuration's own section belongs to it -/
+theorem getAt_own_hit (c : Cfg) (rest : List Cfg) (key s : String) (dflt : Option String) (sec : Section) (e : Entry)
+    (hs : dget? c.sections s = some sec) (hk : dget? sec key = some e) :
+    getAt (c :: rest) key none (some s) dflt = .ok (0, key, e) := by
+  rw [getAt_order]
+  simp [ownLookupAt, getItemAt, hs, sectionEntry, hk, Except.map]
+
+/-- an entry found by the fallback chain belongs to the configuration the fallback's own `get` binds it to -/
+theorem getAt_fallback (c : Cfg) (rest : List Cfg) (key : String) (sect dflt : Option String)
+    (err : Err) (r : Nat × String × Entry)
+    (hown : ownLookupAt c rest key sect = .error err) (hfb : getAt rest key none sect none = .ok r) :
+    getAt (c :: rest) key none sect dflt = .ok (r.1 + 1, r.2) := by
+  rw [getAt_order, hown]; simp [hfb]
+
+/-- **the default belongs to the configuration that was asked**, whatever the fallback chain is -/
+theorem getAt_default (c : Cfg) (rest : List Cfg) (key d : String) (sect : Option String) (err err' : Err)
+    (hown : ownLookupAt c rest key sect = .error err) (hfb : getAt rest key none sect none = .error err') :
+    getAt (c :: rest) key none sect (some d) = .ok (0, key, ⟨d, "default value", []⟩) := by
+  rw [getAt_order, hown]; simp [hfb]
+
+theorem varsAt_zero (c : Cfg) (rest : List Cfg) : varsAt (c :: rest) 0 = c.vars := rfl
+theorem varsAt_succ (c : Cfg) (rest : List Cfg) (d : Nat) : varsAt (c :: rest) (d + 1) = varsAt rest d := by
+  simp [varsAt]
+
+/-- **`.replaced` / `.replace()` on a default**: the variables are those of the configuration that was asked and of
+the call — the result does not depend on the variables (or anything else) of the fallback configurations beyond
+their not having the entry -/
+theorem getReplaced_default (c : Cfg) (rest : List Cfg) (key d : String) (sect : Option String) (err err' : Err)
+    (callVars : List (String × String)) (rdflt : Option String)
+    (hown : ownLookupAt c rest key sect = .error err) (hfb : getAt rest key none sect none = .error err') :
+    getReplaced (c :: rest) key none sect (some d) callVars rdflt =
+      .ok (0, key, ⟨d, "default value", []⟩, entryReplace c.vars callVars rdflt d) := by
+  simp [getReplaced, getAt_default c rest key d sect err err' hown hfb, Except.map, varsAt_zero]
+
+/-- the same for an explicit override -/
+theorem getReplaced_override (c : Cfg) (rest : List Cfg) (key v : String) (sect dflt : Option String)
+    (callVars : List (String × String)) (rdflt : Option String) :
+    getReplaced (c :: rest) key (some v) sect dflt callVars rdflt =
+      .ok (0, key, ⟨v, "method call", []⟩, entryReplace c.vars callVars rdflt v) := by
+  simp [getReplaced, getAt_override, Except.map, varsAt_zero]
+
+/-- an own entry is filled in from the configuration's own variables -/
+theorem getReplaced_own_hit (c : Cfg) (rest : List Cfg) (key s : String) (dflt : Option String) (sec : Section) (e : Entry)
+    (callVars : List (String × String)) (rdflt : Option String)
+    (hs : dget? c.sections s = some sec) (hk : dget? sec key = some e) :
+    getReplaced (c :: rest) key none (some s) dflt callVars rdflt =
+      .ok (0, key, e, entryReplace c.vars callVars rdflt e.value) := by
+  simp [getReplaced, getAt_own_hit c rest key s dflt sec e hs hk, Except.map, varsAt_zero]
+
+/-- **an entry found in the fallback chain reads exactly as when the fallback configuration is asked itself**
+(same entry, same replaced text; only the position moves by one) -/
+theorem getReplaced_fallback (c : Cfg) (rest : List Cfg) (key : String) (sect dflt : Option String) (err : Err)
+    (callVars : List (String × String)) (rdflt : Option String) (r : Nat × String × Entry × Except RErr String)
+    (hown : ownLookupAt c rest key sect = .error err)
+    (hfb : getReplaced rest key none sect none callVars rdflt = .ok r) :
+    getReplaced (c :: rest) key none sect dflt callVars rdflt = .ok (r.1 + 1, r.2) := by
+  simp only [getReplaced] at hfb ⊢
+  cases hg : getAt rest key none sect none with
+  | error e => rw [hg] at hfb; simp [Except.map] at hfb
+  | ok q =>
+    rw [hg] at hfb
+    simp [Except.map] at hfb
+    rw [getAt_fallback c rest key sect dflt err q hown hg]
+    simp [Except.map, varsAt_succ, ← hfb]
+
+/-- replacing the variables of every configuration changes nothing about which entry is found and whom it
+belongs to: lookups do not read variables -/
+theorem masterSection_vars (c : Cfg) (vs : List (String × String)) :
+    ({ c with vars := vs } : Cfg).masterSection = c.masterSection := rfl
+
+theorem getItemAt_ignores_vars (f : Cfg → List (String × String)) (chain : List Cfg) (name : String) :
+    getItemAt (chain.map fun c => { c with vars := f c }) name = getItemAt chain name := by
+  induction chain with
+  | nil => rfl
+  | cons c rest ih =>
+    simp only [List.map_cons, getItemAt, masterSection_vars, ih]
+
+theorem getAt_ignores_vars (f : Cfg → List (String × String)) (chain : List Cfg) (key : String)
+    (value sect dflt : Option String) :
+    getAt (chain.map fun c => { c with vars := f c }) key value sect dflt = getAt chain key value sect dflt := by
+  induction chain generalizing value dflt with
+  | nil => rfl
+  | cons c rest ih =>
+    have hi := getItemAt_ignores_vars f (c :: rest)
+    simp only [List.map_cons] at hi
+    simp only [List.map_cons, getAt, masterSection_vars, ih, hi]
+
+theorem ownLookupAt_ignores_fallback_vars (f : Cfg → List (String × String)) (c : Cfg) (rest : List Cfg)
+    (key : String) (sect : Option String) :
+    ownLookupAt c (rest.map fun x => { x with vars := f x }) key sect = ownLookupAt c rest key sect := by
+  have hi : ∀ s, getItemAt (c :: rest.map fun x => { x with vars := f x }) s = getItemAt (c :: rest) s := by
+    intro s; simp only [getItemAt, getItemAt_ignores_vars]
+  cases sect with
+  | none => rfl
+  | some s => simp only [ownLookupAt, hi]
+
+/-- **headline for the class of seeded change C19/r3-2**: when the lookup ends at the default, the text seen through
+`.replaced` / `.replace()` is the same whatever variables the fallback configurations hold -/
+theorem default_ignores_fallback_vars (f : Cfg → List (String × String)) (c : Cfg) (rest : List Cfg)
+    (key d : String) (sect : Option String) (err err' : Err) (callVars : List (String × String)) (rdflt : Option String)
+    (hown : ownLookupAt c rest key sect = .error err) (hfb : getAt rest key none sect none = .error err') :
+    getReplaced (c :: rest.map fun x => { x with vars := f x }) key none sect (some d) callVars rdflt =
+      getReplaced (c :: rest) key none sect (some d) callVars rdflt := by
+  rw [getReplaced_default c rest key d sect err err' callVars rdflt hown hfb,
+    getReplaced_default c _ key d sect err err' callVars rdflt
+      (by rw [ownLookupAt_ignores_fallback_vars]; exact hown) (by rw [getAt_ignores_vars]; exact hfb)]
+
+example : (match getReplaced [{ Cfg.new "main" with vars := [("root", "/data")] }, { Cfg.new "fb" with vars := [("root", "/opt")] }]
+    "out" none (some "files") (some "{root}/out") [] none with
+    | .ok (0, _, _, .ok s) => s == "/data/out"
+    | _ => false) = true := by decide +kernel
+
 /-! ### Typed accessors are consistent with the stored text -/
 
 theorem splitBlanks_flatten (cs cur : List Char) :
@@ -1275,3 +1566,26 @@ end Midgard.Props.C19
 #print axioms Midgard.Props.C19.sectionStr_ignores_source
 #print axioms Midgard.Props.C19.asStr_ignores_source
 #print axioms Midgard.Props.C19.text_form_stable
+#print axioms Midgard.Props.C19.getItemAt_getItem
+#print axioms Midgard.Props.C19.ownLookupAt_ownLookup
+#print axioms Midgard.Props.C19.getAt_order
+#print axioms Midgard.Props.C19.getAt_get
+#print axioms Midgard.Props.C19.getItemAt_lt
+#print axioms Midgard.Props.C19.sectionEntry_map_ok
+#print axioms Midgard.Props.C19.ownLookupAt_lt
+#print axioms Midgard.Props.C19.getAt_lt
+#print axioms Midgard.Props.C19.getAt_override
+#print axioms Midgard.Props.C19.getAt_own_hit
+#print axioms Midgard.Props.C19.getAt_fallback
+#print axioms Midgard.Props.C19.getAt_default
+#print axioms Midgard.Props.C19.varsAt_zero
+#print axioms Midgard.Props.C19.varsAt_succ
+#print axioms Midgard.Props.C19.getReplaced_default
+#print axioms Midgard.Props.C19.getReplaced_override
+#print axioms Midgard.Props.C19.getReplaced_own_hit
+#print axioms Midgard.Props.C19.getReplaced_fallback
+#print axioms Midgard.Props.C19.masterSection_vars
+#print axioms Midgard.Props.C19.getItemAt_ignores_vars
+#print axioms Midgard.Props.C19.getAt_ignores_vars
+#print axioms Midgard.Props.C19.ownLookupAt_ignores_fallback_vars
+#print axioms Midgard.Props.C19.default_ignores_fallback_vars
